@@ -456,6 +456,87 @@ _add("phi_pred_renamed_by_merge", """
 """)
 
 
+DATA_FAMILIES = {}
+
+
+def _addd(name, text, data):
+    DATA_FAMILIES[name] = "function runtime {\n" + text.strip("\n") + "\n}\n\ndata readonly {\n  dbsection table:\n" + \
+        "".join(f"    db @{l}\n" for l in data) + "}\n"
+
+
+# djmp with a jump table: a jump-only target (threaded / merged), identical halting targets (tail merge), a shared join
+_addd("djmp_two_targets_one_empty", """
+  runtime:
+    %x = calldataload 0
+    %a = calldataload 32
+    djmp %x, @e, @t
+  e:
+    jmp @j
+  t:
+    %u = add %a, 1
+    jmp @j
+  j:
+    %p = phi @e, %a, @t, %u
+    mstore 0, %p
+    return 0, 32
+""", ["e", "t"])
+_addd("djmp_identical_tails", """
+  runtime:
+    %x = calldataload 0
+    djmp %x, @t1, @t2, @t3
+  t1:
+    %u = 5
+    mstore 0, %u
+    revert 0, 32
+  t2:
+    %v = 5
+    mstore 0, %v
+    revert 0, 32
+  t3:
+    %w = 6
+    mstore 0, %w
+    revert 0, 32
+""", ["t1", "t2", "t3", "t1"])
+_addd("djmp_chain_behind_target", """
+  runtime:
+    %x = calldataload 0
+    %a = calldataload 32
+    djmp %x, @t1, @t2, @t3
+  t1:
+    %u = add %a, 1
+    jmp @k1
+  k1:
+    mstore 0, %u
+    jmp @k2
+  k2:
+    return 0, 32
+  t2:
+    jmp @k3
+  k3:
+    mstore 0, %a
+    stop
+  t3:
+    revert 0, 0
+""", ["t1", "t2", "t3"])
+_addd("djmp_shared_join_phi", """
+  runtime:
+    %x = calldataload 0
+    %a = calldataload 32
+    %b = calldataload 64
+    jnz %a, @d, @j
+  d:
+    %c = add %b, 1
+    djmp %x, @j, @t
+  t:
+    mstore 32, %c
+    jmp @j
+  j:
+    %p = phi @runtime, %a, @d, %b, @t, %c
+    mstore 0, %p
+    return 0, 32
+""", ["j", "t"])
+
+
 # ------------------------------------------------------------------ generated programs
 def gen_program(rnd):
     """random CFG; SSA by construction (see module docstring)"""
@@ -591,7 +672,7 @@ def gen_program(rnd):
 
 
 def programs(rnd, n_random):
-    out = list(HAND.items())
+    out = list(HAND.items()) + list(DATA_FAMILIES.items())
     for k in range(n_random):
         out.append((f"gen{k}", gen_program(rnd)))
     return out
